@@ -330,6 +330,8 @@ def known_bad_rows(T):
     for f in kf.get("findings", []):
         if f.get("property") != "C12" or ":" not in f.get("key", ""):
             continue
+        if f["key"].split(":", 1)[0] not in ("tagkey", "none-child", "member-missing", "duplicate-member", "child-order", "row-other"):
+            continue    # only row defects name a row (Props/C12.v no longer uses this list: wf_schema is proved for all rows)
         qn = f["key"].split(":", 1)[1].rsplit(".", 1)[0]
         if qn in T.qname and T.qname.index(qn) not in ids:
             ids.append(T.qname.index(qn))
